@@ -48,9 +48,10 @@ def insertNat (x : Nat) : List Nat → List Nat
   | [] => [x]
   | y :: ys => if x < y then x :: y :: ys else if x = y then y :: ys else y :: insertNat x ys
 
-/-- Heights probed by the observation: `h0 - 1`, every height with a successful op, current, current + 1. -/
+/-- Heights probed by the observation: 0 (not a synonym of "latest"), `h0 - 1`, every height with a successful op,
+current, current + 1. -/
 def probeHeights (h0 cur : Nat) (heights : List Nat) : List Nat :=
-  insertNat (cur + 1) (insertNat cur (insertNat (h0 - 1) heights))
+  insertNat 0 (insertNat (cur + 1) (insertNat cur (insertNat (h0 - 1) heights)))
 
 def parseMsg (kind : String) (a : Args) : Option Msg :=
   match kind with
